@@ -398,7 +398,7 @@ func ruleR29_4(c *Check) {
 // R29.6: a table is dropped whole only if ONE dropped prefix covers both of its ends.
 func ruleR29_6(c *Check) {
 	w := c.W
-	r := c.Rule("R29.6", "E6", 2, "compactBuildTables.keepTable drops a table without reading it only when its smallest and its biggest user key both start with the same dropped prefix (the two HasPrefix tests use the same prefix variable of one iteration over dropPrefixes): then, and only then, every key in between has that prefix too",
+	r := c.Rule("R29.6", "E6", 1, "compactBuildTables.keepTable drops a table without reading it only when its smallest and its biggest user key both start with the same dropped prefix (the two HasPrefix tests use the same prefix variable of one iteration over dropPrefixes): then, and only then, every key in between has that prefix too",
 		"with several prefixes a table whose ends match two different prefixes also holds the keys between them: dropping it whole deletes keys that start with none of the prefixes")
 	f := w.F("badger.levelsController.compactBuildTables")
 	kt := f.LitVar("keepTable")
